@@ -258,11 +258,11 @@ def mapped? (g : List UInt16) : Option Addr4 :=
 /-- `impl Display for Ipv6Addr` (no width / precision) on the list of groups. -/
 def printGroups (g : List UInt16) : List Char :=
   match mapped? g with
-  | some q => "::ffff:".toList ++ printV4 q
+  | some q => ':' :: ':' :: 'f' :: 'f' :: 'f' :: 'f' :: ':' :: printV4 q     -- "::ffff:{}"
   | none =>
     let (start, len) := zeroSpan (g.map (· == 0))
     if len > 1 then
-      joinSep true (g.take start) ++ "::".toList ++ joinSep true (g.drop (start + len))
+      joinSep true (g.take start) ++ ':' :: ':' :: joinSep true (g.drop (start + len))
     else joinSep true g
 
 def printV6 (a : Addr6) : List Char := printGroups a.groups
